@@ -202,7 +202,7 @@ class BaseVersion(object):
             setattr(self, private, value)
             try:
                 self._update_full_version()
-            except ValueError:
+            except (ValueError, TypeError):
                 # Don't leave it in an invalid state
                 setattr(self, private, old_value)
                 self._update_full_version()
